@@ -234,6 +234,9 @@ func Judge(o *reconlib.Outcome) vrun.Result {
 		}
 	}
 	sig := fmt.Sprintf("u%d d%d %v | %s", len(s.Ups), len(s.Downs), s.OutageCalls, faultKey(s))
+	for _, f := range s.Faults {
+		sig += fmt.Sprintf("|#%d/%v/d%d/e%d/c%d", f.Trigger.Ordinal, f.Trigger.After, f.DialDelayMs, f.DialErrors, f.ResumeConflicts)
+	}
 	r := vrun.Hold(sig, true)
 	r.Stat("faults_fired", int64(o.FaultsFired))
 	r.Stat("links", int64(o.Links))
@@ -392,6 +395,53 @@ func TestC05Reconnect(t *testing.T) {
 		for i := 0; i < nf; i++ {
 			s.Faults = append(s.Faults, genFault(c.Rng, s))
 		}
+		return runCase(c, s, Judge)
+	})
+}
+
+// TestC05Enumerate: the complete single-fault grid of one base scenario (fault enumeration proper).
+func TestC05Enumerate(t *testing.T) {
+	type pos struct {
+		dir    memnet.Dir
+		class  string
+		ord    int
+		after  bool
+		mode   memnet.Mode
+		redial int // 0 instant, 1 = 3 s dial delay, 2 = two dial errors
+	}
+	var grid []pos
+	classes := []struct {
+		dir   memnet.Dir
+		class string
+		max   int
+	}{{memnet.C2S, "UpstreamChunk", 4}, {memnet.S2C, "UpstreamChunkAck", 4}, {memnet.S2C, "DownstreamChunk", 4}, {memnet.C2S, "DownstreamChunkAck", 3}, {memnet.S2C, "DownstreamChunkAckComplete", 3}, {memnet.C2S, "Ping", 3}, {memnet.S2C, "Pong", 3}}
+	for _, cl := range classes {
+		for ord := 1; ord <= cl.max; ord++ {
+			for _, after := range []bool{false, true} {
+				for _, mode := range []memnet.Mode{memnet.Sever, memnet.WFail, memnet.REOF, memnet.Blackhole} {
+					for redial := 0; redial < 3; redial++ {
+						grid = append(grid, pos{cl.dir, cl.class, ord, after, mode, redial})
+					}
+				}
+			}
+		}
+	}
+	meta := vrun.Meta{Property: "C05", Workload: "TestC05Enumerate", Total: len(grid), Exhaustive: true,
+		Rule: "complete single-fault grid of one base scenario (a reliable and an unreliable upstream, a reliable downstream, continuous traffic, every API call kind issued when the link dies): failure before/after the n-th chunk, ack, downstream chunk, downstream ack, ack-complete, ping, pong x 4 failure modes x redial {instant, 3 s, after two dial errors}; same oracle as TestC05Reconnect. non-trivial = the fault fired; all cases distinct"}
+	vrun.Loop(t, meta, 0, func(c *vrun.Case) vrun.Result {
+		g := grid[c.Index]
+		s := reconlib.Scenario{PingMs: 200, Storage: "payload", WritesB: 3, DuringWrites: 2, AckHoldMod: 3}
+		s.Ups = []reconlib.UpSpec{{QoS: "reliable", Flush: "immediate", Writes: 12}, {QoS: "unreliable", Flush: "size64", Writes: 12}}
+		s.Downs = []reconlib.DownSpec{{QoS: "reliable"}}
+		s.OutageCalls = []string{"open-up", "open-down", "metadata", "call", "call-wait"}
+		f := reconlib.Fault{Trigger: memnet.Trigger{Dir: g.dir, Class: g.class, Ordinal: g.ord, After: g.after, Mode: g.mode}}
+		switch g.redial {
+		case 1:
+			f.DialDelayMs = 3000
+		case 2:
+			f.DialErrors = 2
+		}
+		s.Faults = []reconlib.Fault{f}
 		return runCase(c, s, Judge)
 	})
 }
